@@ -1,0 +1,40 @@
+//go:build !verif
+
+package cluster
+
+// The verification seam is compiled out: x.sim is always nil, so every
+// "if x.sim != nil" branch in cluster.go is dead and these stubs are never
+// called.
+
+import (
+	"context"
+	"time"
+
+	"github.com/redis/go-redis/v9"
+	"github.com/tochemey/olric"
+
+	"github.com/tochemey/goakt/v4/discovery"
+)
+
+type simBackend interface {
+	Join(node *discovery.Node) <-chan *redis.Message
+	Leave(node *discovery.Node)
+	Put(ctx context.Context, node, key string, value []byte, nx bool, ttl time.Duration) error
+	Get(ctx context.Context, node, key string) ([]byte, error)
+	Delete(ctx context.Context, node, key string) error
+	Keys(ctx context.Context, node string) ([]string, error)
+	Incr(ctx context.Context, node, key string, delta int) (int, error)
+	Members(ctx context.Context, node string) ([]olric.Member, error)
+}
+
+func simBackendFor(*discovery.Node) simBackend { return nil }
+
+func simTTL([]olric.PutOption) time.Duration { return 0 }
+
+func (x *cluster) simMembers(ctx context.Context) ([]olric.Member, error) {
+	return x.client.Members(ctx)
+}
+
+func simScan[T any](context.Context, *cluster, recordNamespace, string, func([]byte) (T, error), func(T)) error {
+	return nil
+}
